@@ -54,6 +54,15 @@ class Typer:
         self.ff = ctx.flow(fn)
         self.p = ctx.p
         self._memo = {}
+        # locals that become a problem's mapping: OptimProblem(..., mapping=X) / <obj>.mapping = X / the helper's result
+        self.mapping_locals = set()
+        for n in au.walk_local(fn.node, include_self=False):
+            if isinstance(n, ast.Call):
+                v = au.kwarg(n, "mapping")
+                if isinstance(v, ast.Name):
+                    self.mapping_locals.add(v.id)
+            elif isinstance(n, ast.Assign) and isinstance(n.value, ast.Name) and any(isinstance(t, ast.Attribute) and t.attr == "mapping" for t in n.targets):
+                self.mapping_locals.add(n.value.id)
 
     # ---- frames
     def is_mapping(self, e, at, depth=0) -> bool:
@@ -81,6 +90,8 @@ class Typer:
                 return self.is_mapping(a0, at, depth + 1)
             return False
         if isinstance(e, ast.Name):
+            if e.id in self.mapping_locals:
+                return True
             for d in self.ff.defs(e.id, at):
                 if d.kind == "param" and d.name in ("mapping", "map"):
                     return True
